@@ -98,8 +98,8 @@ PROPS = {
         "level_text": "Every lane of every basic floating-point kernel call observed is compared bit-for-bit (any NaN = any NaN) with the scalar IEEE operation evaluated in an "
                       "independent -ffp-contract=off translation unit; fma family against {fused, unfused}; predicates against the mathematical predicate. float32 unary "
                       "operations are swept over all 2^32 patterns in the thorough tier (1/509 strided in quick). Binary operand pairs and doubles are sampled: exploration.",
-        "level_note": "Trusts the scalar FPU/libm (sqrt, fma, nextafter, frexp, ldexp) as reference. Sign of zero is free for frexp(+-0), nextafter with from==to, min/max of +-0; "
-                      "NaN payloads are not compared; ldexp only with 2^e normal.",
+        "level_note": "Trusts the scalar FPU/libm (sqrt, fma, nextafter, frexp, ldexp) as reference. Sign of zero is free only for min/max of +-0 and sign(); frexp, nextafter and "
+                      "ldexp are compared bit for bit for every input and every exponent (open findings F31a/F31b); NaN payloads are not compared.",
         "design_ref": "DESIGN.md section 6 C02, section 4",
         "jobs": [
             {"unit": "c02"},
@@ -111,7 +111,7 @@ PROPS = {
                 "(+-0,+-1,+-inf,NaN,+-MIN,+-denorm_min,+-MAX,halves,eps...), random bit patterns, moderate values, neighbourhoods of 2^mant, subnormals with random mantissa, "
                 "related pairs (b within 2 ulp of a), a witness-lane sweep, and all/strided float32 patterns for unary ops; a distinct non-trivial cell = "
                 "(op,type,arch,lane,class of each operand); " + ALL22,
-        "assumptions": COMMON_ASSUME + ["sign of zero free where the property says so; NaN payload/sign not compared", "ldexp exponent restricted to 2^e normal (DESIGN.md 5.3)"],
+        "assumptions": COMMON_ASSUME + ["sign of zero free where the property says so; NaN payload/sign not compared"],
         "floor": {"quick": 10**7, "thorough": 10**9},
     },
     "C03": {
@@ -239,7 +239,8 @@ PROPS = {
         "level_text": "Every load/store API form (member, tag, free-function, load_as/store_as, bool, complex, converting) of every element type is executed with the buffer "
                       "flush against a PROT_NONE page on either side and at every admissible byte offset of a window straddling a page boundary; a fault, a changed canary byte "
                       "outside [p,p+size) or a lane/element mismatch (memcmp, signalling-NaN payloads included) is a violation. gather/scatter tables sit flush against the guards "
-                      "with extreme, equal, permuted and random indices; unindexed elements must keep their canary. Exploration: the space of offsets is covered, data is sampled.",
+                      "with extreme, equal, permuted and random indices (signed, unsigned, negative, and unsigned 32-bit indices >= 2^31 inside an 80 GiB PROT_NONE reservation); "
+                      "unindexed elements must keep their canary. Exploration: the space of offsets is covered, data is sampled.",
         "level_note": "Guard pages detect accesses that leave the two writable pages; over-reads that stay inside them are only visible to the ASan/valgrind runs (thorough tier) "
                       "on the exact-size heap blocks. valgrind 3.19 cannot decode AVX-512, so those architectures rely on guard pages + ASan.",
         "design_ref": "DESIGN.md section 6 C04, section 9",
@@ -445,7 +446,8 @@ PROPS = {
                       "functions within 32 eps of max(|result|,1), pow(z, real) on |r||Log z| <= 8, tan/tanh on |Re|,|Im| <= 20; real/imag/conj/proj/neg and ==/!= exactly. "
                       "Operands: moduli 2^-20..2^20, the 8 axis/diagonal directions exactly with +-0 components, random directions, every lane. Interleaved loads/stores run under "
                       "the C04 guard-page monitor. asin/acos/atan/asinh/acosh/atanh/log1p are not claimed (DESIGN.md 5.1) and only run under the crash monitor. Exploration.",
-        "level_note": "Trusts libstdc++'s std::complex<long double> on x87 extended precision. Open findings: sqrt on the lower side of the cut, tan/tanh near their poles.",
+        "level_note": "Trusts libstdc++'s std::complex<long double> on x87 extended precision. No open finding: sqrt on the lower side of the cut, tan/tanh near their poles, "
+                      "division with underflowing products and log of denormal moduli were repaired in /repo (DESIGN.md 12.8); their probes and sweeps stay in the unit.",
         "design_ref": "DESIGN.md section 6 C16, 5.1",
         "jobs": [
             {"unit": "c16"},
